@@ -27,14 +27,16 @@ RULE = (
     "query-side outside schema-side, first declared outermost -> resolver -> output hooks), compared exactly for strings and trails, plus "
     "exact per-(directive instance, hook) invocation counts, plus equality of the delivered values across the literal / variable / "
     "nested-variable spellings; in half of the worlds the three directives are instances of one class that know their name, and a hook "
-    "receiving another directive's usage is a violation. Distinct = SHA-1 of (placement, request); non-trivial = some element carries >= 2 directives and the "
+    "receiving another directive's usage is a violation; in 40% of the worlds the built-in String carries an output directive "
+    "(`extend scalar String @ts(n:k)`) that must govern the String leaves of an introspection selection. Distinct = SHA-1 of (placement, request); non-trivial = some element carries >= 2 directives and the "
     "request involves >= 3 stages."
 )
 ASSUMPTIONS = ["relative order of enum-value vs enum-type hooks is not asserted (statement leaves it open); each must run exactly once, each group in declaration order"]
 DNAMES = ["t1", "t2", "t3"]
 ALL_LOC = "SCALAR | ENUM | ENUM_VALUE | OBJECT | INTERFACE | UNION | INPUT_OBJECT | INPUT_FIELD_DEFINITION | ARGUMENT_DEFINITION | FIELD_DEFINITION | FIELD"
 SITES = ["S", "E", "E.A", "E.B", "In", "In.s", "In.e", "In.n", "In.l", "In2", "In2.s", "I", "T", "U", "T.s", "T.s.x", "T.e", "I.s", "I.s.x",
-         "Query.f", "Query.f.a", "Query.f.o", "Query.f.e", "Query.f.l", "Query.t", "Query.i", "Query.u", "Query.es", "Query.ts", "Query.g", "Query.g.a", "Query.nnq", "Query.nne"]
+         "Query.f", "Query.f.a", "Query.f.o", "Query.f.e", "Query.f.l", "Query.t", "Query.i", "Query.u", "Query.es", "Query.ts", "Query.g", "Query.g.a", "Query.nnq", "Query.nne",
+         "String"]  # the built-in scalar, decorated through `extend scalar String @...`: governs the String leaves of introspection
 ENUM_VALUES = ("A", "B")
 
 
@@ -47,6 +49,7 @@ def gen_placement(c):
     # an interface field and its implementation must agree textually on arguments: same directives
     pl["I.s.x"] = []
     pl["I.s"] = []
+    pl["String"] = [["ts", "String#%d" % c.int(0, 9)]] if c.maybe(40) else []
     pl["$impl"] = c.choice(["class", "instances"])
     return pl
 
@@ -78,7 +81,10 @@ type Query {
   nnq: S!%(Query.nnq)s
   nne: E!%(Query.nne)s
 }
-""" % dict({k: d(pl, k) for k in SITES}, loc=ALL_LOC)
+%(StringExt)s
+""" % dict({k: d(pl, k) for k in SITES if k in pl}, loc=ALL_LOC,
+           # (an output-only directive with an Int argument: the tagging directives take a String argument themselves)
+           StringExt=("directive @ts(n: Int) on SCALAR\nextend scalar String @ts(n: %s)" % pl["String"][0][1].split("#")[1]) if pl.get("String") else "")
 
 
 # ------------------------------------------------------------------ harness
@@ -154,6 +160,15 @@ class World:
 
         for n in DNAMES:
             Directive(n, schema_name=name)(Tagger(n) if pl.get("$impl") == "instances" else Tagger)
+
+        class OutTagger:
+            async def on_pre_output_coercion(self, da, nxt, value, ctx, info):
+                tag = "String#%d" % da["n"]
+                W.log.append(("out", tag))
+                return await nxt(tag_output(value, tag), ctx, info)
+
+        if pl.get("String"):
+            Directive("ts", schema_name=name)(OutTagger)
 
         @Scalar("S", schema_name=name)
         class S:
@@ -371,9 +386,9 @@ def gen_request(c):
         name = c.choice(["nnq", "nne"])
         return {"uses": [{"alias": "k0", "name": name, "qdirs": qdirs(), "args": {}, "how": {}, "merged_qdirs": []}]}
     for _ in range(c.int(1, 4)):
-        kind = c.weighted([(5, "f"), (2, "g"), (2, "t"), (1, "i"), (1, "u"), (1, "es"), (1, "ts")])
+        kind = c.weighted([(5, "f"), (2, "g"), (2, "t"), (1, "i"), (1, "u"), (1, "es"), (1, "ts"), (1, "intro")])
         alias = "k%d" % len(uses)
-        u = {"alias": alias, "name": kind, "qdirs": qdirs(), "args": {}, "how": {}, "merged_qdirs": []}
+        u = {"alias": alias, "name": kind, "qdirs": qdirs() if kind != "intro" else [], "args": {}, "how": {}, "merged_qdirs": []}
         if kind == "f":
             raw = {}
             if c.maybe(60):
@@ -431,6 +446,9 @@ def render(spec):
         return newvar(ARG_TYPES[an], v)
 
     for u in spec["uses"]:
+        if u["name"] == "intro":
+            parts.append("%s: __schema { queryType { name } }" % u["alias"])
+            continue
         args = []
         for an, v in u["args"].items():
             how = u["how"].get(an, "literal")
@@ -505,6 +523,9 @@ def expectation(pl, spec):
                 m.hit("out", t)
             exp_args[u["alias"]] = {}
             exp_data[u["alias"]] = None
+        elif name == "intro":
+            exp_args[u["alias"]] = None
+            exp_data[u["alias"]] = {"queryType": {"name": m.out("Query", "String")}}
         elif name == "es":
             for t in m.tags("Query.es"):
                 m.hit("field>", t)
@@ -554,7 +575,9 @@ def check(spec, world=None):
     for u in ([] if null_root else spec["uses"]):
         al = u["alias"]
         got = world.calls.get(al)
-        if got is None:
+        if u["name"] == "intro":
+            got = None if got is None else "resolver ran"
+        elif got is None:
             raise Violation(spec, "resolver of %s did not run%s" % (al, ctx), tag="norun")
         if not equal(exp_args[al], got):
             raise Violation(spec, "field %s: resolver received %r; the documented composition gives %r%s" % (al, got, show(exp_args[al]), ctx), tag="args")
